@@ -651,6 +651,16 @@ class Exec:
 
     def enum_const(self, rd, n):
         v = self.tu.enumval.get(rd['id'])
+        if v is None and self.aux_tus:
+            tname = strip_quals(n.get('type', {}).get('qualType', '')).split('::')[-1]
+            cands = set()
+            for tu in self.aux_tus:
+                for i_, val in tu.enumval.items():
+                    d_ = tu.byid.get(i_, {})
+                    if d_.get('name') == rd.get('name') and (not tname or tname in tu.qual.get(i_, '')):
+                        cands.add(val)
+            if len(cands) == 1:
+                v = cands.pop()
         if v is None:
             raise ExtractionError(f'{self.unit}: unknown enum constant {rd.get("name")}')
         return IntV(I(v), parse_type(n['type']))
@@ -658,6 +668,15 @@ class Exec:
     def global_lv(self, st, q, rd):
         q = models.GLOBAL_ALIAS.get(q, q)
         ct = parse_type(rd.get('type'))
+        if q in ('abort', 'vfps::Display::abort'):
+            # flag set asynchronously by the SIGINT handler: every read may see it newly set, and it is never cleared
+            prev = st.scal.get('ghost.abort_seen')
+            b = State.fresh('abort_read', z3.BoolSort())
+            if prev is not None:
+                st.assume(z3.Implies(prev.t, b))
+            st.scal['ghost.abort_seen'] = BoolV(b)
+            self.logw(('s', 'ghost.abort_seen'))
+            return BoolV(b)
         if q not in models.CONST_GLOBALS and ('vfps::physcons::' + str(q)) in models.CONST_GLOBALS and ct.kind == 'float':
             q = 'vfps::physcons::' + q       # dump without namespace context (main)
         if q in models.CONST_GLOBALS:
@@ -863,6 +882,8 @@ class Exec:
                 return l.ref
             if isinstance(l, ObjRef):
                 return l
+            if isinstance(l, LVar) and isinstance(st.env.get(l.vid), ObjRef):
+                return st.env[l.vid]
             p = PtrV('&', I(0), None)
             p.target = l
             return p
